@@ -195,6 +195,12 @@ def check_accumulators(P, R):
             t1 = list(dict.fromkeys(p.terms(a1, r)))
             neg = [x for x in t1 if x[0] == -1]
             R.check(bool(t1) and not neg, "POL.A1", f.key, "A1 terms all positive", pol.fmt_terms(t1)[:80], f"a term enters A1 negatively: {pol.fmt_terms(neg)}", r.lineno)
+            # posterior moments, residuals and counts multiply in both accumulators
+            pi_ = pol.Pol(P, f, track_inv=True)
+            for nm_, ae in (("A1", a1), ("A2", a2)):
+                it_ = list(dict.fromkeys(pi_.terms(ae, r)))
+                inv_atoms = sorted({x for s_, a in it_ for x in a if x.startswith("1/")})
+                R.check(not inv_atoms, "POL.acc-placement", f.key, f"{nm_}: every factor multiplies", "", f"{inv_atoms[:3]} divide(s) in the accumulator {nm_}", r.lineno)
             # counts weight A1
             cnt = any(any(a.endswith(".n") or "n_acc" in a for a in x[1]) for x in t1)
             R.check(cnt, "POL.A1", f.key, "A1 weighted by the counts", "", "A1 is not weighted by the zeroth-order statistics", r.lineno)
